@@ -44,3 +44,22 @@ Theorem C04_js_denotes_the_expression :
   forall fm en e, read_js (to_js fm en e) = Some (name_e fm en e).
 Proof. exact read_to_js. Qed.
 Print Assumptions C04_js_denotes_the_expression.
+
+(* Statements and structure.  The line emitted for a decompiled assignment / statement call is the canonical
+   JavaScript of the SOURCE statement ("<target> = <expr>;", "f(args);", "fn_call(h(args));" for a handler of the
+   script; a line gets its semicolon unless its text ends in a closing brace), and for every exit-free nest of
+   if / if-else / repeat while over such statements (any depth, any length; C03_exit_free_nests_rebuilt_unbounded gives
+   the rebuilt statement list from the bytes) the emitted JavaScript is the canonical layout of the source program:
+   "if (<cond>) {" / "} else {" / "}", "while (<cond>) {" / "}", bodies one level deeper, a condition between
+   parentheses exactly once. *)
+From DRX Require Import Spec.SpecNest Proofs.LingoNestJs.
+Theorem C04_statement_js :
+  forall fm en props s, js_ok_s en props s -> forall pc ind,
+    gen_js (reify_s en props pc s) ind fm = js_line ind (js_stmt_text fm en props s).
+Proof. exact js_stmt_line. Qed.
+Print Assumptions C04_statement_js.
+Theorem C04_structured_js_is_canonical :
+  forall fm en props p, js_ok_p en props p -> forall pc ind,
+    js_of (rebuilt en props pc p) ind fm = pp_js_p fm en props ind p.
+Proof. exact nest_js. Qed.
+Print Assumptions C04_structured_js_is_canonical.
